@@ -167,6 +167,32 @@ pub fn build<A>(vm: &mut Vm<A>, v: &OV) -> Result<Value, ExecutionErrorPayload> 
     })
 }
 
+/// Build a value whose tables went through a different history: every table first receives
+/// `extra` additional integer keys (forcing its hash part to grow) which are removed again.
+pub fn build_with_history<A>(vm: &mut Vm<A>, v: &OV, extra: i64) -> Result<Value, ExecutionErrorPayload> {
+    Ok(match v {
+        OV::Table(es) => {
+            let t = vm.init_table()?.into_inner();
+            // keep it reachable while it is filled
+            vm.stack_push(Value::Object(t))?;
+            for i in 0..extra {
+                unsafe { (*t.as_ptr()).as_table_mut().unwrap().insert(Value::Integer(1_000_000 + i), Value::Integer(i))? };
+            }
+            for (k, v) in es {
+                let k = build_with_history(vm, k, extra)?;
+                let v = build_with_history(vm, v, extra)?;
+                unsafe { (*t.as_ptr()).as_table_mut().unwrap().insert(k, v)? };
+            }
+            for i in 0..extra {
+                unsafe { (*t.as_ptr()).as_table_mut().unwrap().remove(Value::Integer(1_000_000 + i))? };
+            }
+            vm.stack_pop();
+            Value::Object(t)
+        }
+        other => build(vm, other)?,
+    })
+}
+
 /// Deep conversion of a real value (depth-limited: cyclic values print as `<deep>`).
 pub fn read_back(v: Value, depth: usize) -> OV {
     if depth == 0 {
@@ -265,7 +291,7 @@ impl Engine for ValEngine {
             let a = rng.pick(&pool).tok();
             let b = rng.pick(&pool).tok();
             let c = rng.pick(&pool).tok();
-            let op = match rng.weighted(&[10, 8, 10, 4, 3, 3, 3, 3, 3, 5, 5, 5, 5, 5, 5, 3, 3]) {
+            let op = match rng.weighted(&[10, 8, 10, 4, 3, 3, 3, 3, 3, 5, 5, 5, 5, 5, 5, 3, 3, 4]) {
                 0 => format!("val eq {a} {b}"),
                 1 => format!("val hash {a}"),
                 2 => format!("val cmp {a} {b}"),
@@ -282,7 +308,8 @@ impl Engine for ValEngine {
                 13 => format!("val law_asym {a} {b}"),
                 14 => format!("val law_eqlt {a} {b}"),
                 15 => format!("val lt {a} {b}"),
-                _ => format!("val le {a} {b}"),
+                16 => format!("val le {a} {b}"),
+                _ => format!("val law_hash_hist {a}"),
             };
             ops.push(op);
         }
@@ -321,6 +348,12 @@ impl Engine for ValEngine {
                 ("mul", [x, y]) => read_back(*x * *y, 8).tok(),
                 ("div", [x, y]) => read_back(*x / *y, 8).tok(),
                 ("echo", [x]) => read_back(*x, 8).tok(),
+                ("law_hash_hist", [x]) => {
+                    // the same content built through another history (grown and shrunk tables)
+                    let ov = OV::parse(a[1]).unwrap();
+                    let y = build_with_history(&mut vm, &ov, 20).unwrap();
+                    (!(*x == y) || cao_lang::verif::hash_value(x) == cao_lang::verif::hash_value(&y)).to_string() + if *x == y { "" } else { " (not equal)" }
+                }
                 ("law_refl", [x]) => (x == x).to_string(),
                 ("law_sym", [x, y]) => ((x == y) == (y == x)).to_string(),
                 ("law_trans", [x, y, z]) => (!(x == y && y == z) || x == z).to_string(),
@@ -346,6 +379,7 @@ impl Engine for ValEngine {
             let dom = vs.iter().all(|v| v.in_eq_domain());
             let line = match a[0] {
                 "law_refl" | "law_trans" => if dom { "true" } else { "?" },
+                "law_hash_hist" => if dom { "true" } else { "?" },
                 "law_sym" | "law_asym" | "law_eqlt" => "true",
                 "law_hash" => if dom && !vs.iter().any(|v| v.has_zero()) { "true" } else { "?" },
                 "cmp" => match (&vs[0], &vs[1]) {
@@ -398,16 +432,30 @@ impl Engine for ValEngine {
 
 // ------------------------------------------------------------------------------------------
 
-pub struct TblEngine;
+/// `limit = Some(n)`: the VM's memory limit is lowered so that growing the table fails with
+/// OutOfMemory at some point; the oracle then demands that the failed operation changed nothing.
+/// (The table model of the driver has no memory limit, so that stream is oracle-only.)
+pub struct TblEngine {
+    pub limited: bool,
+}
 
 impl Engine for TblEngine {
     fn name(&self) -> &'static str {
-        "tbl"
+        if self.limited { "tblo" } else { "tbl" }
+    }
+
+    fn model_compared(&self, _op: &str) -> bool {
+        !self.limited
     }
 
     fn gen(&self, rng: &mut Rng, tier: Tier, idx: usize) -> Vec<String> {
         let n = if tier == Tier::Quick { rng.range(10, 70) } else { rng.range(10, 250) };
-        let mut ops = vec!["tbl new".to_string()];
+        let mut ops = if self.limited {
+            // limits around the size of a small table so that some growth step is refused
+            vec![format!("tbl new limit={}", rng.pick(&[600usize, 800, 1000, 1300, 1700, 2400, 3000]))]
+        } else {
+            vec!["tbl new".to_string()]
+        };
         let mut keys: Vec<OV> = (0..6).map(|_| gen_plain_key(rng)).collect();
         for i in 0..6 {
             keys.push(OV::Int(i));
@@ -419,6 +467,12 @@ impl Engine for TblEngine {
             let k = rng.pick(&keys).tok();
             let v = gen_value(rng, 1);
             let v = if v.in_eq_domain() { v.tok() } else { "i5".to_string() };
+            let (k, v) = if self.limited {
+                // scalar payloads only: the memory must be spent on the table itself
+                (format!("i{}", rng.range(0, 60)), format!("i{}", rng.range(0, 9)))
+            } else {
+                (k, v)
+            };
             match rng.weighted(&[26, 14, 5, 10, 14, 10, 6, 5, 6]) {
                 0 => ops.push(format!("tbl insert {k} {v}")),
                 1 => ops.push(format!("tbl get {k}")),
@@ -453,8 +507,11 @@ impl Engine for TblEngine {
             let a = args(op);
             let tbl = |t: &Option<std::ptr::NonNull<cao_lang::vm::runtime::cao_lang_object::CaoLangObject>>| unsafe { (*t.unwrap().as_ptr()).as_table_mut().unwrap() };
             let line = match a.as_slice() {
-                ["new"] => {
+                ["new", ..] => {
                     vm.clear();
+                    if let Some(l) = a.iter().find_map(|x| x.strip_prefix("limit=")) {
+                        vm.runtime_data.set_memory_limit(l.parse().unwrap());
+                    }
                     let g = vm.init_table().unwrap();
                     let p = g.into_inner();
                     // keep it alive across collections: root it on the value stack
@@ -512,13 +569,16 @@ impl Engine for TblEngine {
     fn run_spec(&self, ops: &[String], _impl_out: &[String]) -> Option<Vec<String>> {
         let mut m: Vec<(String, String)> = vec![];
         let mut out = vec![];
-        for op in ops {
+        for (li, op) in ops.iter().enumerate() {
             let a = args(op);
+            // a refused allocation is reported as an error and leaves the table unchanged
+            let oom = _impl_out.get(li).map(|r| r == "err:OutOfMemory").unwrap_or(false);
             let line = match a.as_slice() {
-                ["new"] => {
+                ["new", ..] => {
                     m.clear();
                     "ok".to_string()
                 }
+                ["insert", ..] | ["append", ..] if oom && self.limited => "err:OutOfMemory".into(),
                 ["insert", k, v] => {
                     match m.iter_mut().find(|(k2, _)| k2 == k) {
                         Some(e) => e.1 = v.to_string(),
@@ -558,6 +618,9 @@ impl Engine for TblEngine {
             t.insert(format!("op:{}", a[0]));
             if a[0] == "pop" && r != "n" {
                 t.insert("hit:pop-nonempty".into());
+            }
+            if r == "err:OutOfMemory" {
+                t.insert("hit:out-of-memory".into());
             }
             if a.len() > 1 {
                 match a[1].chars().next() {
